@@ -12,7 +12,8 @@ Definition a_table := 14. Definition a_type := 15. Definition a_key := 16. Defin
 Definition a_expanding := 18. Definition a_columns := 20. Definition a_where := 21. Definition a_element := 22.
 (* classes *)
 Definition c_binary := 1. Definition c_column := 2. Definition c_bind := 3. Definition c_table := 4.
-Definition c_select := 5. Definition c_alias := 6.
+Definition c_select := 5. Definition c_alias := 6. Definition c_values := 7. Definition c_ddl := 8.
+Definition a_data := 23.
 
 Definition T_ref : ttab := [
   (c_binary, mkC KNormal false [(a_left, HKids); (a_right, HKids); (a_operator, HTruthy); (a_type, HNotNone)]);
@@ -20,7 +21,9 @@ Definition T_ref : ttab := [
   (c_bind,   mkC KNormal true  [(a_type, HNotNone); (a_key, HNotNone); (a_litexec, HNotNone)]);
   (c_table,  mkC KIdentity false []);
   (c_select, mkC KNormal false [(a_columns, HKids); (a_where, HKids)]);
-  (c_alias,  mkC KNormal false [(a_element, HKids); (a_name, HNotNone)]) ].
+  (c_alias,  mkC KNormal false [(a_element, HKids); (a_name, HNotNone)]);
+  (c_values, mkC KNormal false [(a_columns, HKids); (a_data, HNoCache); (a_name, HTruthy)]);   (* Values: not cacheable once it has data *)
+  (c_ddl,    mkC KNoCache false []) ].                                                          (* a class without a cache key *)
 (* what the compiler reads: visit_bindparam reads bindparam.expanding, which is not in the key *)
 Definition V_ref : vtab := [
   (c_binary, [a_left; a_right; a_operator]);
@@ -47,6 +50,13 @@ Definition s_3 : node := sel (bp 4 (A 3) ANone (A 3) AFalse).
 Definition s_9 : node := sel (bp 4 (A 9) ANone (A 9) AFalse).
 Definition s_expanding : node := sel (bp 4 (A 9) ANone (A 9) (A 1)).
 Definition s_callable : node := sel (bp 4 ANone (A 77) (A 4) AFalse).      (* callable_=lambda: 4 *)
+(* not cacheable: a VALUES construct with data; a statement containing an element without a cache key *)
+Definition s_values : node :=
+  Node 0 c_select [] [(a_columns, [colx]);
+                      (a_where, [Node 3 c_binary [(a_operator, A 400)]
+                                   [(a_left, [Node 5 c_values [(a_data, A 900); (a_name, A 901)] [(a_columns, [colx])]]);
+                                    (a_right, [bp 4 (A 5) ANone (A 5) AFalse])]])].
+Definition s_nokey : node := Node 0 c_select [] [(a_columns, [colx; Node 6 c_ddl [] []])].
 
 (* the simplest compiler: the text is everything it sees, the parameters are the bind parameters it sees *)
 Definition render_ref (ctx : atom) (v : ktree) : ktree * list N := (v, kbl T_ref v).
